@@ -630,3 +630,151 @@ Example fixed_witnesses :
   http_store_decision fx_all true (Some (secs 1000)) 0 (secs 1000) (secs 1000) = None /\
   lookup_enabled MRemote (withconfig_ttl fx_all MRemote (create_ttl MRemote (Some (secs 30))) (Some 0)) = false.
 Proof. vm_compute. splits; reflexivity. Qed.
+
+(** ** RFC 7234 freshness from header values (specification: 4.2.1, 4.2.3, 5.3)
+
+    [rfc_lifetime]: max-age, else Expires - Date (Date absent: the time the
+    response was received), an unparsable Expires means "already expired".
+    [rfc_current_age]: the larger of the Age header and of the apparent age
+    (response time - Date, not negative), in whole seconds.  The response is
+    fresh for [rfc_remaining] from the moment it is received; heimdall's
+    `default_ttl` is the heuristic lifetime of a response without explicit one. *)
+Definition rfc_lifetime (h : hvals) (resp_time : Z) : option Z :=
+  match hv_maxage h with
+  | Some m => Some m
+  | None =>
+      match hv_expires h with
+      | Some (Some x) => Some (x - match hv_date h with Some d => d | None => resp_time end)
+      | Some None => Some 0
+      | None => None
+      end
+  end.
+
+Definition rfc_current_age (h : hvals) (resp_time : Z) : Z :=
+  let apparent := match hv_date h with Some d => Z.max 0 (secs (unix resp_time) - d) | None => 0 end in
+  Z.max (hv_age h) apparent.
+
+Definition lifetime_or_default (h : hvals) (dflt resp_time : Z) : option Z :=
+  match rfc_lifetime h resp_time with
+  | Some l => Some l
+  | None => if dflt =? 0 then None else Some dflt
+  end.
+
+Definition rfc_remaining (h : hvals) (dflt resp_time : Z) : option Z :=
+  option_map (fun l => l - rfc_current_age h resp_time) (lifetime_or_default h dflt resp_time).
+
+(** C10-F4: the response has aged before it arrived (Age header, Date in the
+    past) or carries an unparsable Expires, and the code would store it *)
+Definition guard_F4 (f : fixes) (h : hvals) (dflt now : Z) : bool :=
+  negb (fx4 f) &&
+  ((bad_expires h && negb (dflt <=? 0)) ||
+   ((0 <? rfc_current_age h now) &&
+    match lifetime_or_default h dflt now with Some l => 0 <? l | None => false end)).
+
+Lemma guard_F4_fixed f h dflt now : fx4 f = true -> guard_F4 f h dflt now = false.
+Proof. intro H. unfold guard_F4. rewrite H. reflexivity. Qed.
+
+Lemma current_age_spec h now : current_age h now = rfc_current_age h now.
+Proof. reflexivity. Qed.
+
+Lemma rfc_current_age_nonneg h now : 0 <= hv_age h -> 0 <= rfc_current_age h now.
+Proof. intro H. unfold rfc_current_age. lia. Qed.
+
+(** the core decision on the library's expiry, in terms of the header values *)
+Lemma core_decision_bound f cachable h dflt now1 now2 ttl :
+  fx2 f = true -> now1 <= now2 ->
+  http_store_decision f cachable (lib_expires h now1) dflt now1 now2 = Some ttl ->
+  0 < ttl /\
+  ((bad_expires h = true /\ ttl <= dflt /\ 0 < dflt) \/
+   (bad_expires h = false /\ exists l, lifetime_or_default h dflt now2 = Some l /\ ttl <= l)).
+Proof.
+  intros Hf Hn. unfold http_store_decision. destruct cachable; simpl; [|discriminate]. rewrite Hf. simpl.
+  unfold lib_expires, bad_expires, lifetime_or_default, rfc_lifetime.
+  destruct (hv_maxage h) as [m|].
+  - destruct (now1 + m - now2 <=? 0) eqn:E; intro H; inversion H; subst. split; [lia|].
+    right. split; [reflexivity|]. eexists; split; [reflexivity | lia].
+  - destruct (hv_expires h) as [[x|]|].
+    + destruct (hv_date h) as [d|].
+      * destruct (now1 + (x - d) - now2 <=? 0) eqn:E; intro H; inversion H; subst. split; [lia|].
+        right. split; [reflexivity|]. eexists; split; [reflexivity | lia].
+      * destruct (x - now2 <=? 0) eqn:E; intro H; inversion H; subst. split; [lia|].
+        right. split; [reflexivity|]. eexists; split; [reflexivity | lia].
+    + destruct (dflt =? 0) eqn:Ed; [discriminate|].
+      destruct (now1 + dflt - now2 <=? 0) eqn:E; intro H; inversion H; subst. split; [lia|].
+      left. split; [reflexivity | lia].
+    + destruct (dflt =? 0) eqn:Ed; [discriminate|].
+      destruct (now1 + dflt - now2 <=? 0) eqn:E; intro H; inversion H; subst. split; [lia|].
+      right. split; [reflexivity|]. eexists; split; [reflexivity | lia].
+Qed.
+
+(** whatever is handed to the cache for a response lies within the RFC 7234
+    freshness the response still has on arrival -- for ALL header values *)
+Theorem http_hdr_within_rfc : forall f cachable h dflt now1 now2 ttl,
+  fx2 f = true -> now1 <= now2 -> 0 <= hv_age h ->
+  guard_F4 f h dflt now2 = false ->
+  http_store_hdr f cachable h dflt now1 now2 = Some ttl ->
+  exists l, rfc_remaining h dflt now2 = Some l /\ 0 < ttl /\ ttl <= l.
+Proof.
+  intros f cachable h dflt now1 now2 ttl Hf Hn Hage Hg Hs. unfold http_store_hdr in Hs.
+  pose proof (rfc_current_age_nonneg h now2 Hage) as Hnn.
+  destruct (fx4 f) eqn:E4; simpl in Hs.
+  - destruct (bad_expires h) eqn:Eb; [discriminate|].
+    destruct (http_store_decision f cachable (lib_expires h now1) dflt now1 now2) as [t0|] eqn:Ec; [|discriminate].
+    destruct (core_decision_bound _ _ _ _ _ _ _ Hf Hn Ec) as [Hp [(Hbad & _)|(_ & l & Hl & Hle)]]; [congruence|].
+    rewrite current_age_spec in Hs.
+    destruct (t0 - rfc_current_age h now2 <=? 0) eqn:Et; inversion Hs; subst.
+    exists (l - rfc_current_age h now2). unfold rfc_remaining. rewrite Hl. simpl. split; [reflexivity | lia].
+  - destruct (http_store_decision f cachable (lib_expires h now1) dflt now1 now2) as [t0|] eqn:Ec; [|discriminate].
+    inversion Hs; subst t0.
+    unfold guard_F4 in Hg. rewrite E4 in Hg. simpl in Hg. apply orb_false_iff in Hg as [Hg1 Hg2].
+    destruct (core_decision_bound _ _ _ _ _ _ _ Hf Hn Ec) as [Hp [(Hbad & Hd & Hdp)|(Hbad & l & Hl & Hle)]].
+    + rewrite Hbad in Hg1. simpl in Hg1. lia.
+    + rewrite Hl in Hg2. apply andb_false_iff in Hg2 as [Hz|Hz]; [|lia].
+      exists (l - rfc_current_age h now2). unfold rfc_remaining. rewrite Hl. simpl. split; [reflexivity | lia].
+Qed.
+
+Theorem http_hdr_not_stored_when_stale : forall f cachable h dflt now1 now2 l,
+  fx2 f = true -> now1 <= now2 -> 0 <= hv_age h ->
+  guard_F4 f h dflt now2 = false ->
+  rfc_remaining h dflt now2 = Some l -> l <= 0 ->
+  http_store_hdr f cachable h dflt now1 now2 = None.
+Proof.
+  intros f cachable h dflt now1 now2 l Hf Hn Hage Hg Hl Hle.
+  destruct (http_store_hdr f cachable h dflt now1 now2) as [ttl|] eqn:Es; [|reflexivity].
+  destruct (http_hdr_within_rfc _ _ _ _ _ _ _ Hf Hn Hage Hg Es) as (l' & Hl' & Hp & Hb). rewrite Hl in Hl'.
+  inversion Hl'; subst. lia.
+Qed.
+
+(** a response without any lifetime (no explicit one, no default) is never stored *)
+Theorem http_hdr_not_stored_without_lifetime : forall f cachable h dflt now1 now2,
+  rfc_remaining h dflt now2 = None ->
+  http_store_hdr f cachable h dflt now1 now2 = None.
+Proof.
+  intros f cachable h dflt now1 now2 Hl. unfold rfc_remaining, lifetime_or_default, rfc_lifetime in Hl.
+  unfold http_store_hdr, http_store_decision, lib_expires.
+  destruct (fx4 f && bad_expires h); [reflexivity|]. destruct cachable; simpl; [|reflexivity].
+  destruct (hv_maxage h); [discriminate|]. destruct (hv_expires h) as [[x|]|]; try discriminate.
+  destruct (dflt =? 0); [reflexivity | discriminate].
+Qed.
+
+(** C10-F4 on the code without the repair: `Age: 3599, max-age=3600` is stored
+    for the full hour although one second of freshness is left; `Expires: 0`
+    with `default_ttl: 5s` is stored for 5 s *)
+Definition h_aged : hvals :=
+  {| hv_maxage := Some (secs 3600); hv_expires := None; hv_date := None; hv_age := secs 3599 |}.
+Definition h_badexp : hvals :=
+  {| hv_maxage := None; hv_expires := Some None; hv_date := None; hv_age := 0 |}.
+
+Theorem F4_refuted :
+  (guard_F4 fx_repo h_aged 0 (secs 1000) = true /\
+   rfc_remaining h_aged 0 (secs 1000) = Some (secs 1) /\
+   http_store_hdr fx_repo true h_aged 0 (secs 1000) (secs 1000) = Some (secs 3600)) /\
+  (guard_F4 fx_repo h_badexp (secs 5) (secs 1000) = true /\
+   rfc_remaining h_badexp (secs 5) (secs 1000) = Some 0 /\
+   http_store_hdr fx_repo true h_badexp (secs 5) (secs 1000) (secs 1000) = Some (secs 5)).
+Proof. vm_compute. splits; reflexivity. Qed.
+
+Example F4_fixed_witness :
+  http_store_hdr fx_all true h_aged 0 (secs 1000) (secs 1000) = Some (secs 1) /\
+  http_store_hdr fx_all true h_badexp (secs 5) (secs 1000) (secs 1000) = None.
+Proof. vm_compute. splits; reflexivity. Qed.
